@@ -195,10 +195,11 @@ def call_ext(I: Any, name: str, args: List[Term], kwargs: Dict[str, Term], st: A
             # over known items: each item with the condition under which it is kept (as a filtered comprehension)
             pairs_f = [(I.truth(I.call(args[0], [x_], {}, st, ctx, node), st), x_) for x_ in its_f]
             pairs_f = [(cn, x_) for cn, x_ in pairs_f if not (is_c(cn) and not cn[1])]
+            # (a filter object can be consumed once: the eager result is marked, see Interp.iter_items / class_attr_value)
             if all(is_c(cn) for cn, _ in pairs_f):
                 from .interp import HeapObj
-                return st.alloc(HeapObj("list", None, {}, [x_ for _, x_ in pairs_f]))
-            return ("condlist", tuple(pairs_f))
+                return st.alloc(HeapObj("list", None, {"$born": c(getattr(I, "cur_serial", None))}, [x_ for _, x_ in pairs_f], False, "iter:filter", True))
+            return ("condlist", tuple(pairs_f), "once")
         return ("filterobj", lambda_norm(I, args[0], args[1], st, ctx, node), args[1])
     if name == "builtins.sum":
         if len(args) == 1:
@@ -408,7 +409,7 @@ def call_ext(I: Any, name: str, args: List[Term], kwargs: Dict[str, Term], st: A
         lists = [I.iter_items(a, st, ctx, node) for a in args]
         if all(l is not None for l in lists):
             from .interp import HeapObj
-            return st.alloc(HeapObj("list", None, {}, [("tuple", tuple(t)) for t in zip(*lists)]))  # type: ignore[arg-type]
+            return st.alloc(HeapObj("list", None, {"$born": c(getattr(I, "cur_serial", None))}, [("tuple", tuple(t)) for t in zip(*lists)], False, "iter:zip", True))  # type: ignore[arg-type]
     if name == "itertools.compress" and len(args) == 2 and not kwargs:
         data, sels = I.iter_items(args[0], st, ctx, node), I.iter_items(args[1], st, ctx, node)
         if data is not None and sels is not None:
@@ -941,7 +942,7 @@ def binop(I: Any, op: ast.operator, a: Term, b: Term, st: Any, ctx: Any, node: a
             if v[0] == "clist":
                 return "list"
             ho_ = st.heap.get(v[1]) if st is not None else None
-            return "list" if ho_ is not None and ho_.kind == "list" and not ho_.symbolic and not ho_.name.startswith("gen:") else None
+            return "list" if ho_ is not None and ho_.kind == "list" and not ho_.symbolic and not ho_.name.startswith(("gen:", "iter:")) else None
         ka, kb = _kind(a), _kind(b)
         if ka is not None and ka == kb:
             ia, ib = I.iter_items(a, st, ctx, node), I.iter_items(b, st, ctx, node)
@@ -1240,7 +1241,7 @@ def _builtin_type_of(v: Term, st: Any) -> Optional[str]:
         return "str" if v[1] == "s" else "bytes"
     if t in ("uint", "len", "dec") or (t in ("lin", "app") and is_int_term(v)):
         return "int"
-    if t == "obj" and st is not None and st.heap[v[1]].cls is None and st.heap[v[1]].kind in ("list", "set", "dict") and not st.heap[v[1]].name.startswith("gen:"):
+    if t == "obj" and st is not None and st.heap[v[1]].cls is None and st.heap[v[1]].kind in ("list", "set", "dict") and not st.heap[v[1]].name.startswith(("gen:", "iter:")):
         return st.heap[v[1]].kind
     if t == "sym":
         if v[2] in ("str", "bytes", "int", "float", "bool"):
